@@ -205,7 +205,8 @@ def run_impl(mod, spec, ops, idx=0):
     """Returns (constructor exception class or None, events per op, harness problems)."""
     cls = build_class(mod, spec, idx)
     problems = []
-    if idx % 2 == 0:
+    envk = spec.get("env", idx)
+    if envk % 2 == 0:
         # the selector creates every mode at start-up: a base mode class may well have been instantiated before the derived
         # one is (nothing of that instance may reach the mode under test); a base that cannot be built on its own is fine
         for b_ in build_class.bases_built:
@@ -221,6 +222,17 @@ def run_impl(mod, spec, ops, idx=0):
     m._rules = []
     table = sd_table()
     timed = [s["name"] for s in spec["states"] if s["timed"]]
+    # ... and other modes are created AFTER it: a mode derived from the one under test (same states, its own MODE_NAME and
+    # so its own dashboard keys, edited to other values below) and the base mode classes; none of them is ever enabled
+    others = []
+    if envk % 3 == 1:
+        sib = type("SA_%d_sib" % idx, (cls,), {"MODE_NAME": spec["mode_name"] + "_sib"})
+        for k_ in [sib] + list(build_class.bases_built):
+            try:
+                k_(spec.get("components"))
+                others.append(k_.MODE_NAME)
+            except Exception:  # noqa
+                pass
     out = []
     hung = False
     for op in ops:
@@ -241,6 +253,8 @@ def run_impl(mod, spec, ops, idx=0):
                         table.putNumber(key, v / T)
                         if table.getNumber(key, -12345.0) != v / T:
                             problems.append("could not write %s" % key)
+                    for j_, o_ in enumerate(others):
+                        table.putNumber("%s\\%s_duration" % (o_, name), ((v or 0) + 5 + 3 * j_) / T)
                 with time_limit(5):
                     m.on_enable()
             elif op["op"] == "iter":
@@ -586,6 +600,7 @@ def gen_case(rng, idx, max_periods=4, hier=None):
     bookkeeping so that clock readings land on, just before and just after
     expiry instants and scripts address the state that will be called."""
     spec = gen_spec(rng, idx, hier)
+    spec["env"] = idx % 6          # which other mode objects exist around the one under test (run_impl)
     if len(spec["firsts"]) != 1:
         return {"spec": spec, "ops": []}       # the constructor must refuse; nothing to drive
     book = Book(spec)
@@ -1001,8 +1016,12 @@ def describe(c, v, ev):
         else:
             hist.append("on_disable")
     where = "when the mode object is constructed" if v0["op_index"] < 0 else "at operation %d" % v0["op_index"]
-    return ("clause %s fails %s: %s first=%s; history %s; expected %s, implementation did %s"
-            % (v0["clause"], where, describe_classes(c["spec"]), c["spec"]["first"] if c["spec"]["first"] else c["spec"]["firsts"],
+    envk = c["spec"].get("env", 0)
+    around = ((" [its base modes instantiated before it]" if envk % 2 == 0 and len(c["spec"]["classes"]) > 1 else "")
+              + (" [a mode derived from it (MODE_NAME %s_sib, its own dashboard values) and its base modes instantiated after it]"
+                 % c["spec"]["mode_name"] if envk % 3 == 1 else ""))
+    return ("clause %s fails %s: %s%s first=%s; history %s; expected %s, implementation did %s"
+            % (v0["clause"], where, describe_classes(c["spec"]), around, c["spec"]["first"] if c["spec"]["first"] else c["spec"]["firsts"],
                " ".join(hist), v0["expected"], v0["observed"]))
 
 
@@ -1099,6 +1118,8 @@ def run(ctx):
         c = gen_case(ctx.rng, i)
         c["origin"] = "gen"
         cases.append(c)
+    for i, c in enumerate(cases):
+        c["spec"].setdefault("env", i % 6)     # part of the case, so that the search, the shrinker and a replay re-create it
 
     results = []
     ctors = []
